@@ -201,6 +201,11 @@ func c11Build(sc c11Scenario, implicit bool) (files map[string]string, configFil
 		}
 		if sp("build.context") != spI {
 			val(sub(at("build.context"), "build"), "context", "build.context")
+			if sc.Origin == "extends-file-subdir" && sc.Layer["build.context"]&1 == 1 && sp("build.context") == spD {
+				// the documented default is the *project* directory (pinned by compose-go's own TestLoadExtendsSameFile /
+				// TestLoadExtendsMultipleFiles); seen from a base file in sub/ that directory is spelled `..`
+				sub(at("build.context"), "build")["context"] = ".."
+			}
 		}
 		if sp("build.dockerfile") != spI {
 			val(sub(at("build.dockerfile"), "build"), "dockerfile", "build.dockerfile")
@@ -665,7 +670,7 @@ func c11RealMeta(raw json.RawMessage) any {
 		}
 	}
 	// (5) every site that is not written with another value shows the documented default
-	if sc.Origin != "extends-file-subdir" {
+	{
 		for _, s := range c11Sites {
 			if c11Eff(sc, s.ID) == spO || absent[c11UnitOf(s.ID)] || s.ID == "default.network" {
 				continue
